@@ -4,6 +4,7 @@ package main
 // MsgServer / keeper / precompile / end blocker, the store projection after every operation.
 
 import (
+	"time"
 	"encoding/binary"
 	"encoding/hex"
 	"fmt"
@@ -41,6 +42,8 @@ type Op struct {
 	Variant int     `json:"variant,omitempty"`
 	Members []int   `json:"members,omitempty"` // oset claim: external ids
 	Stake   int64   `json:"stake,omitempty"`   // whole FX
+	Tenths  int64   `json:"tenths,omitempty"`  // plus this many tenths of an FX (add-delegate: exact slash amounts)
+	Days    int     `json:"days,omitempty"`    // block: days that pass before the block (22 = beyond the unbonding period)
 	List    []int   `json:"list,omitempty"`    // gov: new oracle list; slash: oracles; block: oracles that confirm open oracle sets
 	Window  uint64  `json:"window,omitempty"`  // window: new SignedWindow param
 }
@@ -133,7 +136,8 @@ func newHist(seed int64, module, name string, rep *lib.Report, prop string) *his
 	}
 	p := h.x.Keeper.GetParams(h.c.Ctx)
 	frac := new(big.Int).Set(p.SlashFraction.BigInt()) // LegacyDec: scaled by 10^18
-	h.cfg = fmt.Sprintf("(mk_cfg %s %d %s)", lib.ZBig(p.DelegateThreshold.Amount.BigInt()), p.DelegateMultiple, lib.ZBig(frac))
+	h.cfg = fmt.Sprintf("(mk_cfg %s %d %s %s %s)", lib.ZBig(p.DelegateThreshold.Amount.BigInt()), p.DelegateMultiple, lib.ZBig(frac),
+		lib.Bool(codeFacts.UnbondDeletesCursor), lib.Bool(codeFacts.CursorClamps))
 	h.mon = newMonitor(h)
 	return h
 }
@@ -358,11 +362,11 @@ func (h *hist) apply(o Op) (accepted bool, errStr string) {
 		err, events = h.try(func(ctx sdk.Context) error {
 			_, e := ms.AddDelegate(ctx, &crosschaintypes.MsgAddDelegate{
 				ChainName: h.module, OracleAddress: oc.Oracle.Acc().String(),
-				Amount: sdk.NewCoin(fxtypes.DefaultDenom, sdkmath.NewInt(o.Stake).MulRaw(1e18)),
+				Amount: sdk.NewCoin(fxtypes.DefaultDenom, sdkmath.NewInt(o.Stake*10+o.Tenths).MulRaw(1e17)),
 			})
 			return e
 		})
-		coqOps = append(coqOps, fmt.Sprintf("AddDelegate %d %s", o.Oracle, fxZ(o.Stake)))
+		coqOps = append(coqOps, fmt.Sprintf("AddDelegate %d %s", o.Oracle, lib.ZBig(new(big.Int).Mul(big.NewInt(o.Stake*10+o.Tenths), big.NewInt(1e17)))))
 	case "slash":
 		// what keeper.slashing does for the listed oracles: SlashOracle on each, SetLastTotalPower if any
 		err, events = h.try(func(ctx sdk.Context) error {
@@ -422,7 +426,14 @@ func (h *hist) apply(o Op) (accepted bool, errStr string) {
 			onlineBefore[oc.id] = oc.online
 		}
 		setNonceBefore := h.x.Keeper.GetLatestOracleSetNonce(h.c.Ctx)
-		err = h.c.NextBlock()
+		if o.Days > 0 {
+			err = h.c.NextBlockAfter(time.Duration(o.Days)*24*time.Hour + lib.BlockStep)
+			if o.Days >= 22 {
+				coqOps = append(coqOps, "Mature") // the staking end blocker completes every unbonding
+			}
+		} else {
+			err = h.c.NextBlock()
+		}
 		if err != nil {
 			// block processing failed: not a C01/C02 matter by itself, but nothing further can be compared
 			h.rep.Fail(lib.Failure{Kind: "harness", What: "block processing failed in " + h.name + ": " + short(err), Sig: "harness:block"})
@@ -462,7 +473,11 @@ func (h *hist) apply(o Op) (accepted bool, errStr string) {
 		}
 	}
 	h.opsOnly = append(h.opsOnly, coqOps...)
-	for _, co := range coqOps {
+	for i, co := range coqOps {
+		if i < len(coqOps)-1 {
+			h.items = append(h.items, "("+co+", mk_skip)") // internal stage of one real operation
+			continue
+		}
 		if h.light && len(h.ops)%40 != 0 {
 			h.items = append(h.items, fmt.Sprintf("(%s, mk_light %d %d %s)", co, ob.acc, ob.lastObs, lib.ZBig(ob.total)))
 		} else {
